@@ -94,6 +94,22 @@ func (ro *roles) isCreate(cal *types.Func) bool { return cal != nil && ro.creato
 
 var rolesCache *roles
 
+// isGetSingleton: the lookup in the singleton table, or a function that only delegates to it.
+func (ro *roles) isGetSingleton(w *World, cal *types.Func) bool {
+	if cal == nil || ro.getSingleton == nil {
+		return false
+	}
+	if cal == ro.getSingleton.Obj {
+		return true
+	}
+	if t := w.Decls[cal]; t != nil {
+		if d := pureDelegation(w, t); d != nil && (d == ro.getSingleton || pureDelegation(w, d) == ro.getSingleton) {
+			return true
+		}
+	}
+	return false
+}
+
 func resolveRoles(w *World) *roles {
 	if rolesCache != nil {
 		return rolesCache
@@ -142,6 +158,11 @@ func resolveRoles(w *World) *roles {
 					if ix, ok := unparen(l).(*ast.IndexExpr); ok && fieldOf(info, ix.X) == ro.cache {
 						storesCache = true
 					}
+				}
+				// the singleton table as a plain map under a lock
+				if st, ld, _ := tableOpsIn(info, x, ro.singletons); len(st) > 0 || len(ld) > 0 {
+					storesSingle = storesSingle || len(st) > 0
+					loadsSingle = loadsSingle || len(ld) > 0
 				}
 				for _, rh := range x.Rhs {
 					if ix, ok := unparen(rh).(*ast.IndexExpr); ok && fieldOf(info, ix.X) == ro.cache {
@@ -249,6 +270,9 @@ func resolveRoles(w *World) *roles {
 					continue
 				}
 				stores := false
+				if st, _, _ := tableOpsIn(g.Pkg.TypesInfo, g.Decl.Body, ro.singletons); len(st) > 0 {
+					stores = true
+				}
 				for _, c := range callsIn(g.Decl.Body, true) {
 					if r2, _, ok := methodCall(c); ok && fieldOf(g.Pkg.TypesInfo, r2) == ro.singletons {
 						if cal := callee(g.Pkg.TypesInfo, c); cal != nil && (cal.Name() == "Store" || cal.Name() == "LoadOrStore" || cal.Name() == "Swap") {
@@ -396,7 +420,7 @@ func trackingEvents(w *World, ro *roles) *Events {
 			if cal == ro.getInstance.Obj {
 				out = append(out, "call:getInstance")
 			}
-			if cal == ro.getSingleton.Obj {
+			if ro.isGetSingleton(w, cal) {
 				out = append(out, "call:getSingleton")
 			}
 			if rn := recvNamed(cal); rn != nil && rn.Obj().Name() == "ConstructorInvoker" && strings.HasPrefix(cal.Name(), "Invoke") {
@@ -416,6 +440,9 @@ func withStoreGens(ev *Events, w *World, ro *roles) *Events {
 				if ix, ok := unparen(l).(*ast.IndexExpr); ok {
 					if fv := fieldOf(info, ix.X); fv != nil {
 						out = append(out, "store:"+ownerField(w, fv))
+						if fv == ro.singletons {
+							out = append(out, "store:singletons")
+						}
 					}
 				}
 				if fv := fieldOf(info, l); fv != nil && i < len(as.Rhs) {
